@@ -50,6 +50,7 @@ extern "C" {
 TaskCtx* sim_cur();                       // current task (thread_local), never null after sim_init
 void sim_scope_enter(int op);
 void sim_scope_leave();
+int rt_on_valgrind();
 void sim_yield_point(int kind);           // semantic yield point (user callbacks)
 extern "C" int sim_cb_fault();           // 1: this callback invocation is the one the plan's fault (kind 2) makes throw
 void sim_status_run(uint64_t run, uint64_t phase, uint64_t fop, uint64_t falloc); // crash-attribution words (mmap'd status file)
